@@ -14,7 +14,6 @@ def run(ctx, rep):
     rep.rule('R-C18-1', 'scan admission sites (file, symlink, directory recursion, special files) are guarded by filter_path / filter_subdir == 0; entries are queued only after the hidden and own-file tests', 6)
     rep.rule('R-C18-1s', 'search of array disks applies the same hidden / own-file / path filters', 3)
     rep.rule('R-C18-2', 'own files: the suffixes used when creating content temporaries and the lock file are rejected by filter_content', 3)
-    rep.rule('R-C18-3', 'filter_apply: FNM_PATHNAME iff rooted pattern (leading slash skipped); directory rules only match directories; filter_recurse walks every ancestor', 4)
     rep.rule('R-C18-4', 'selection: fix never writes an excluded file; state_filter marks files, links and dirs', 3)
     f = P.fn('scan_sub')
     rep.analysed(f)
@@ -73,40 +72,8 @@ def run(ctx, rep):
     rep.check(bool(lock) and lock <= sufs, 'R-C18-2', 'lock file suffix %s is excluded by filter_content' % sorted(lock), fc.file, '', function='filter_content', construct='lock suffix')
     cmpn = list(fc.calls('pathcmp'))
     rep.check(len(cmpn) == 1 + len(sufs) and all(any(True for _ in [0]) for _ in cmpn), 'R-C18-2', 'filter_content compares the path itself and each derived name, all rejecting', fc.file, '%d comparisons' % len(cmpn), function='filter_content', construct='own names')
-    # filter_apply
-    a = P.fn('filter_apply')
-    rep.analysed(a)
-    fm = list(a.calls('fnmatch'))
-    ok = len(fm) == 2
-    det = ''
-    if ok:
-        FNM_PATHNAME = 1
-        with_path = [c for c in fm if (a.const_of(c.ops[2]) or 0) & FNM_PATHNAME]
-        without = [c for c in fm if not ((a.const_of(c.ops[2]) or 0) & FNM_PATHNAME)]
-        ok = len(with_path) == 1 and len(without) == 1
-        if ok:
-            gp = dict(guards_of(a, with_path[0])); gn = dict(guards_of(a, without[0]))
-            ok = gp.get('filter->is_path') is True and gn.get('filter->is_path') is False
-            ok = ok and '+1' in a.expr(with_path[0].ops[0]).replace(' ', '') or ok and '[1]' in a.expr(with_path[0].ops[0])
-            ok = ok and a.expr(with_path[0].ops[1]) == 'path' and a.expr(without[0].ops[1]) == 'name'
-            det = 'rooted: fnmatch(%s, path, PATHNAME) ; name: fnmatch(%s, name, 0)' % (a.expr(with_path[0].ops[0]), a.expr(without[0].ops[0]))
-    rep.check(ok, 'R-C18-3', 'filter_apply: FNM_PATHNAME iff filter->is_path, leading slash skipped', a.file, det, function='filter_apply', construct='pathname flag')
-    zero = [i for i in a.all_insts() if i.op == 'store' and a.expr(i.ops[1]) == '&retval' and a.const_of(i.ops[0]) == 0]
-    okd = False
-    cs_ = set()
-    for z in zero:
-        gs = guards_of(a, z)
-        cs_ |= {(x, p) for x, p in gs if 'is_dir' in x}
-    okd = ('filter->is_dir', True) in cs_ and ('is_dir', False) in cs_ and ('filter->is_dir', False) in cs_ and ('is_dir', True) in cs_
-    rep.check(okd, 'R-C18-3', 'filter_apply: directory rules match only directories and file rules only files', a.file, str(sorted(cs_)), function='filter_apply', construct='kind match')
-    r = P.fn('filter_recurse')
-    rep.analysed(r)
-    ap = list(r.calls('filter_apply'))
-    inloop = [c for c in ap if r.loop_of(c.block) is not None]
-    after = [c for c in ap if r.loop_of(c.block) is None]
-    rep.check(len(inloop) == 1 and len(after) == 1 and r.const_of(inloop[0].ops[4]) == 1 and r.expr(after[0].ops[4]) == 'is_dir', 'R-C18-3', 'filter_recurse: every ancestor component as a directory, then the leaf', r.file, '', function='filter_recurse', construct='ancestors')
-    dirsel = [b for b in range(len(r.blocks)) if r.term(b).op == 'br' and len(r.term(b).ops) == 3 and '47' in r.expr(r.term(b).ops[0])]
-    rep.check(bool(dirsel), 'R-C18-3', 'filter_recurse splits the path at every slash', r.file, '', function='filter_recurse', construct='split')
+    # filter_apply / filter_recurse / filter_element: decided semantically by R-C18-6 (interpretation against the documented rules);
+    # the former expression-shape rule R-C18-3 was removed
     # selection
     c = P.fn('state_check_process')
     hw = list(c.calls('handle_write')); hcr = list(c.calls('handle_create'))
@@ -153,3 +120,149 @@ def run(ctx, rep):
         bad_ = ['%s (is_dir=%d, include-by-default=%d)' % (c.callee, *wrappers[c.callee]) for c in tests if wrappers[c.callee] != (want_dir, 0)]
         seen_k.add(mark.callee)
         rep.check(bool(tests) and not bad_, 'R-C18-5', 'state_filter: path tests guarding %s' % mark.callee, mark.loc(), 'tests: %s' % [c.callee for c in tests] if not bad_ else 'wrong filter variant: %s' % bad_, function='state_filter', construct='variant for %s' % mark.callee)
+    filter_semantics_rule(P, rep)
+
+
+def filter_semantics_rule(P, rep, rid='R-C18-6'):
+    """the decision function of the include/exclude rules (filter_alloc_file -> filter_element -> filter_recurse -> filter_apply) is
+    string/integer-only code around fnmatch(): it is interpreted from the IR with fnmatch replaced by a model of POSIX fnmatch
+    (`*`, `?`, FNM_PATHNAME) and compared, over an exhaustive small domain of rule lists and paths, with the documented rules:
+    the first rule that matches decides; a pattern without slash matches file names at any depth, `name/` directory names at any
+    depth, a leading slash anchors the pattern at the disk root (wildcards do not cross `/`); whatever lies in an excluded or
+    included directory follows it; when no rule matches the verdict is the opposite of the last rule (directories being descended
+    into are kept)."""
+    import itertools, re as _re2
+    from .. import region as RG
+    rep.rule(rid, 'include/exclude decision function equals the documented rules over an exhaustive small domain of rule lists (1-2 rules, 9 pattern shapes, both directions) and paths (files and directories, 3 levels)', 3000)
+    fa = P.fn('filter_alloc_file'); fe = P.fn('filter_element')
+    rep.analysed(fa, fe, P.fn('filter_recurse'), P.fn('filter_apply'))
+    lay = P.distructs.get('snapraid_filter'); nl = P.distructs.get('tommy_node_struct')
+    if not lay or not nl:
+        raise AnalysisBroken('layout of snapraid_filter / tommy_node_struct not found')
+    fo = {m['name']: m['off'] for m in lay['members']}; no = {m['name']: m['off'] for m in nl['members']}
+
+    def fn_translate(pat, pathname):
+        out = ''
+        for ch in pat:
+            if ch == '*':
+                out += '[^/]*' if pathname else '.*'
+            elif ch == '?':
+                out += '[^/]' if pathname else '.'
+            else:
+                out += _re2.escape(ch)
+        return _re2.compile('^' + out + '$', _re2.S)
+
+    class M:
+        pass
+
+    def machine():
+        m = M()
+        m.n = 0
+        def cstr(R, p):
+            s = ''
+            k = 0
+            while True:
+                v = R.mem.get((p.reg, p.off + k))
+                if v is None:
+                    raise RG.Unsupported('unterminated string at %r' % (p,))
+                v &= 0xff
+                if v == 0:
+                    return s
+                s += chr(v); k += 1
+        def put(R, p, s):
+            for k, ch in enumerate(s):
+                R.mem[(p.reg, p.off + k)] = ord(ch)
+            R.mem[(p.reg, p.off + len(s))] = 0
+        def ext(ins, args):
+            c = ins.callee
+            if c == 'malloc_nofail':
+                m.n += 1
+                reg = ('heap', m.n)
+                m.R.zero_regions.add(reg)
+                return (RG.P_(reg, 0),)
+            if c in ('pathcpy', 'pathimport'):
+                put(m.R, args[0], cstr(m.R, args[2]))
+                return (0,)
+            if c == 'free':
+                return (0,)
+            if c == 'fnmatch':
+                pat, s_, fl = cstr(m.R, args[0]), cstr(m.R, args[1]), args[2]
+                return (0 if fn_translate(pat, bool(fl & 1)).match(s_) else 1,)
+            return None
+        m.R = RG.Region(P, extern=ext)
+        m.cstr = cstr; m.put = put
+        return m
+
+    # ---- the documented rules (independent model)
+    def spec_rule(pat, path, is_dir):
+        is_dirpat = pat.endswith('/')
+        core = pat[:-1] if is_dirpat else pat
+        rooted = core.startswith('/')
+        comps = path.split('/')
+        items = [('/'.join(comps[:k + 1]), comps[k], True) for k in range(len(comps) - 1)] + [(path, comps[-1], is_dir)]
+        for full, name, d in items:
+            if d != is_dirpat:
+                continue
+            if (fn_translate(core[1:], True).match(full) if rooted else fn_translate(core, False).match(name)):
+                return True
+        return False
+
+    def spec(rules, path, is_dir, def_include):
+        last = None
+        for direction, pat in rules:
+            if spec_rule(pat, path, is_dir):
+                return 0 if direction > 0 else -1
+            last = direction
+        if def_include:
+            return 0
+        return -1 if (last is not None and last > 0) else 0
+
+    pats = ['*.txt', 'a', 'd/', '/d/', '/d/a', '/a', '/d/*', '/*/a', 'e*/']
+    rules1 = [(dr, p) for dr in (1, -1) for p in pats]
+    lists = [[r] for r in rules1] + [[r1, r2] for r1 in rules1 for r2 in rules1 if r1 != r2]
+    queries = [(p, 0, 0) for p in ('a', 'b.txt', 'd/a', 'd/b.txt', 'e/d/a', 'd/e/a', 'ex/a', 'd')] + \
+              [(p, 1, di) for p in ('d', 'e/d', 'ex') for di in (0, 1)]
+    bad = None
+    nrun = 0
+    for rl in lists:
+        m = machine()
+        R = m.R
+        # build the filter objects with the program's own constructor
+        nodes = []
+        for k, (direction, pat) in enumerate(rl):
+            sp = RG.P_(('str', 'pat%d' % k), 0)
+            m.put(R, sp, pat)
+            try:
+                fp = R.run(fa, 0, [direction & 0xffffffff, sp], frame=100 + k)
+            except RG.Unsupported as e:
+                raise AnalysisBroken('cannot interpret filter_alloc_file: %s' % e)
+            if not isinstance(fp, RG.P_):
+                raise AnalysisBroken('filter_alloc_file rejects the documented pattern %r' % pat)
+            nodes.append(fp)
+        lst = RG.P_(('obj', 'list'), 0)
+        for k, fp in enumerate(nodes):
+            nd = RG.P_(fp.reg, fp.off + fo['node'])
+            R.mem[(nd.reg, nd.off + no['data'])] = fp
+            R.mem[(nd.reg, nd.off + no['next'])] = RG.P_(nodes[k + 1].reg, nodes[k + 1].off + fo['node']) if k + 1 < len(nodes) else 0
+            R.mem[(nd.reg, nd.off + no['prev'])] = 0
+        R.mem[(lst.reg, 0)] = RG.P_(nodes[0].reg, nodes[0].off + fo['node'])
+        dsk = RG.P_(('str', 'disk'), 0); m.put(R, dsk, 'd1')
+        for qi, (path, is_dir, def_inc) in enumerate(queries):
+            sp = RG.P_(('str', 'q%d' % qi), 0); m.put(R, sp, path)
+            try:
+                got = R.run(fe, 0, [lst, 0, dsk, sp, is_dir, def_inc], frame=1000 + qi)
+            except RG.Unsupported as e:
+                raise AnalysisBroken('cannot interpret filter_element: %s' % e)
+            got = RG.signed(got & 0xffffffff, 32)
+            want = spec(rl, path, bool(is_dir), bool(def_inc))
+            nrun += 1
+            if (got == 0) != (want == 0):
+                if bad is None:
+                    bad = 'rules %s, %s %r%s: the code %s it, the documented rules %s it' % (
+                        ['%s %s' % ('include' if d > 0 else 'exclude', p) for d, p in rl], 'directory' if is_dir else 'file', path,
+                        ' (descent)' if def_inc else '', 'includes' if got == 0 else 'excludes', 'include' if want == 0 else 'exclude')
+            elif bad is None:
+                rep.ok(rid, '%s | %s' % (rl, path))
+    if bad:
+        rep.fail(rid, 'filter decision function', fe.file, bad, function='filter_element', construct='filter semantics')
+    rep.extra['filter_evaluations'] = nrun
